@@ -48,6 +48,8 @@ CHECKS = {
                   "targets": ["replicator).start", "replicator).replicate", "replicator).caughtUp", "replicator).maybeExpandISR", "protocolWriter).Flush",
                               "partition).sendReplicationRequest", "partition).handleReplicationRequest", "partition).handleReplicationResponse",
                               "partition).commitLoop", "partition).updateISRLatestOffset", "partition).messageProcessingLoop"]},
+                 {"name": "VerifC02FallbackToHW", "replay": "interpreted", "quick": {"msgs": 3}, "thorough": {"msgs": 4},
+                  "covers": ["done", "nothing-committed"], "targets": ["partition).truncateUncommitted", "partition).truncateToHW", "commitLog).Truncate"]},
                  {"name": "VerifC02Reelected", "replay": "interpreted", "max-paths": 3000000, "quick": {"s1": 3, "s2": 1, "s3": 3}, "thorough": {"s1": 4, "s2": 2, "s3": 4},
                   "covers": ["done", "publish", "fetch", "shrink", "second-term", "a-leads-again", "late-request"],
                   "targets": ["partition).becomeLeader", "partition).becomeFollower", "partition).stopLeading", "partition).truncateUncommitted",
